@@ -320,3 +320,19 @@ func (i *interpreter) sprint(fr *frame, args []value, ln bool) value {
 }
 
 var _ *ssa.Function
+
+// callMethodWithArgs invokes method name of (t, v) with extra args.
+func (i *interpreter) callMethodWithArgs(fr *frame, t types.Type, v value, name string, args []value) (value, bool) {
+	mset := i.prog.MethodSets.MethodSet(t)
+	for k := 0; k < mset.Len(); k++ {
+		sel := mset.At(k)
+		if sel.Obj().Name() == name {
+			fn := i.prog.MethodValue(sel)
+			if fn == nil {
+				return nil, false
+			}
+			return call(i, fr, 0, fn, append([]value{v}, args...)), true
+		}
+	}
+	return nil, false
+}
